@@ -154,7 +154,7 @@ func checkC12(e *RunEnv) *CheckResult {
 			now, _ := strconv.Atoi(z[:strings.IndexByte(z, '/')])
 			cs = append(cs, Case{Base: base, BaseName: "S0+staged", BaseSeed: seed, Steps: []Step{Run("commit", "-m", "m").WithEnv("TZ=VERIFTZ:" + z).WithTags(append(offTags(now), "zone-transition-near")...)}})
 		}
-		names := []string{"Build Bot #7", "Ann -> Bee", "1 > 2", "Bee >", "A", "Al Bo", "Al  Bo", "é ü", "O'N", "a>b", "x@y", strings.Repeat("N", 200)}
+		names := []string{"Émile Zoë", "Łukasz Żak", "山田 太郎", "Sammy Davis Jr.", "'quoted'", "Build Bot #7", "Ann -> Bee", "1 > 2", "Bee >", "A", "Al Bo", "Al  Bo", "é ü", "O'N", "a>b", "x@y", strings.Repeat("N", 200)}
 		emails := []string{"a@b.co", "a.b+c-d_e@x-y.z9.org", "A9@a1.b2.info"}
 		messages := []string{"", "m", "a: b", "l1\nl2", "l1\n\nl3", "\nlead", "trail\n", "é", strings.Repeat("x", 4096), "tree deadbeef", "author x", "100% of %s %d", "50%",
 			strings.Repeat(strings.Repeat("forty kilobytes in eleven lines ", 120)+"\n", 11) + "end", "subject\n\n" + strings.Repeat("y", 70000)}
